@@ -90,6 +90,8 @@ func runC01(p *Prog, r *Result) {
 	checkArithmOperatorsKeptApart(p, r, "R01f")
 	r.Rule("R01g", "a word part whose printing can write a space on request sees no such request unless it is the first part of its word", 1)
 	checkNoSpaceInsideWord(p, r, "R01g")
+	r.Rule("R01h", "every command type whose printing can begin with \"(\" has a case in startsWithLparen, which is what keeps \"( (\" from being printed as \"((\"", 3)
+	checkLparenStartersListed(p, r, "R01h")
 	pkg := si.pkg
 	info := pkg.TypesInfo
 	g := buildRefGraph(p)
@@ -475,6 +477,8 @@ func inDefaultOfRootSwitch(g *FGraph, b *FBlock) bool {
 }
 
 var c01Controls = []Control{
+	{Name: "anonymous-function-not-a-paren-starter", Rule: "R01h", WantKey: "startsWithLparen#FuncDecl", File: "syntax/printer.go",
+		Mutate: ctlReplaceAnywhere("\tcase *FuncDecl:\n\t\t// keep ( () for a zsh anonymous function like \"() { foo; }\"\n\t\treturn !node.RsrvWord && node.Name == nil && len(node.Names) == 0\n", "")},
 	{Name: "space-inside-a-word", Rule: "R01g", WantKey: "wordParts#a ProcSubst that is not the first part", File: "syntax/printer.go",
 		Mutate: ctlReplaceAnywhere("\t\tif _, ok := wp.(*ProcSubst); ok && i > 0 {\n", "\t\tif _, ok := wp.(*ProcSubst); ok && i < 0 {\n")},
 	{Name: "compact-binary-glues-its-signs", Rule: "R01f", WantKey: "arithmExprRecurse#operator", File: "syntax/printer.go",
